@@ -3,7 +3,7 @@ CONSTANTS
  MaxPerHost = 3
  MaxHops = 3
  Cut = 40
- Kinds = {"api", "storage"}
+ Kinds = {"api", "storage", "authd"}
  ActHosts = {"api", "api2", "other"}
  Fixed = FALSE
  Emit = FALSE
